@@ -200,3 +200,71 @@ Proof.
   destruct (String.eqb t "t.Node"); cbv iota; [|discriminate].
   rewrite !memb_In. cbn [In]. tauto.
 Qed.
+
+(* ---- paths of any length, by their segments ---- *)
+
+(* the path spelled by any non-empty list of dot-free segments reads the walk over them ... *)
+Theorem C18_get_by_segments : forall sch h root segs,
+  segs <> [] -> forallb dotfreeb segs = true ->
+  get sch h root (join_dot segs) = walk sch h (VRef root) segs.
+Proof. exact get_by_segments. Qed.
+Print Assumptions C18_get_by_segments.
+
+(* ... and assigns the last name on what the walk over all the others reaches *)
+Theorem C18_set_by_segments : forall sch h root pre last v,
+  forallb dotfreeb pre = true -> dotfreeb last = true ->
+  set sch h root (join_dot (pre ++ [last])) v = assign sch h (walk sch h (VRef root) pre) last v.
+Proof. exact set_by_segments. Qed.
+Print Assumptions C18_set_by_segments.
+
+(* the same assignment from the other end: one step along the first segment, then set of the rest on the
+   structure reached.  Resolving the prefix in a loop and recursing segment by segment are the same function
+   for every length; an implementation may differ from it only by running out of call depth. *)
+Theorem C18_set_peel_first : forall sch h root f rest v,
+  dotfreeb f = true ->
+  set sch h root (f ++ String dot rest)%string v =
+  match step sch h (VRef root) f with
+  | VRef o => set sch h o rest v
+  | _ => (h, Some EAttribute)
+  end.
+Proof. exact set_peel_first. Qed.
+Print Assumptions C18_set_peel_first.
+
+(* ---- features declared with the reserved UIMA names self / type ---- *)
+
+(* in the type system denoted by ANY list of declared feature names (declared "self"/"type" are stored as
+   self_/type_), "type" and "self" themselves are features of no type *)
+Theorem C18_reserved_not_feature : forall d t,
+  is_feature (declared d) t "type" = false /\ is_feature (declared d) t "self" = false.
+Proof. exact reserved_not_feature. Qed.
+Print Assumptions C18_reserved_not_feature.
+
+(* hence such a segment reads None and is refused as a last name, nothing modified *)
+Theorem C18_reserved_segment : forall d h cur v,
+  step (declared d) h cur "type" = VNone /\ step (declared d) h cur "self" = VNone /\
+  assign (declared d) h cur "type" v = (h, Some EAttribute) /\
+  assign (declared d) h cur "self" v = (h, Some EAttribute).
+Proof. exact reserved_segment. Qed.
+Print Assumptions C18_reserved_segment.
+
+Theorem C18_accessor_feature : forall d t fs f,
+  alookup t d = Some fs -> In f fs -> is_feature (declared d) t (accessor f) = true.
+Proof. exact accessor_feature. Qed.
+Print Assumptions C18_accessor_feature.
+
+(* non-vacuity: a relation type declaring "type", "self" and "next" on a two-node cycle; the renamed
+   features are reachable, the bare names read None and cannot be assigned; and a path of 2 001 segments
+   round the cycle is read and assigned like a short one *)
+Example C18_reserved_and_long_hold :
+  let sch := declared [("demo.Relation", ["type"; "self"; "next"])] in
+  let h := [(0%N, mkObj "demo.Relation" [("type_", VPrim "s:cause"); ("next", VRef 1%N)]);
+            (1%N, mkObj "demo.Relation" [("type_", VPrim "s:effect"); ("next", VRef 0%N)])] in
+  let long := join_dot (repeat "next" 2000 ++ ["type_"]) in
+  sch = [("demo.Relation", ["type_"; "self_"; "next"])] /\
+  get sch h 0%N "next.type_" = VPrim "s:effect" /\ get sch h 0%N "next.type" = VNone /\
+  set sch h 0%N "next.type" (VPrim "s:x") = (h, Some EAttribute) /\
+  set sch h 0%N "self" (VPrim "s:x") = (h, Some EAttribute) /\
+  get sch h 0%N long = VPrim "s:cause" /\
+  (exists h', set sch h 0%N long (VPrim "s:x") = (h', None) /\ get sch h' 0%N "type_" = VPrim "s:x" /\
+              get sch h' 0%N long = VPrim "s:x").
+Proof. cbv zeta. repeat split; try (vm_compute; reflexivity). eexists. repeat split; vm_compute; reflexivity. Qed.
